@@ -440,7 +440,23 @@ static int try_to_push (int kind, int value) {
  *  the parse tree given as argument.
  * 	@param expr The parse tree node to generate code for.
  */
+static void i_generate_node_1 (parse_node_t * expr);
+static int generate_depth = 0;
+
 void i_generate_node (parse_node_t * expr) {
+  if (generate_depth >= MAX_PARSE_TREE_DEPTH)
+    {
+      /* see optimize(): refuse, rather than run out of C stack */
+      if (!num_parse_error)
+        yyerror ("Expression or statement too deeply nested");
+      return;
+    }
+  generate_depth++;
+  i_generate_node_1 (expr);
+  generate_depth--;
+}
+
+static void i_generate_node_1 (parse_node_t * expr) {
 
   if (!expr)
     return;
@@ -1103,6 +1119,7 @@ void
 i_initialize_parser ()
 {
   foreach_depth = 0;
+  generate_depth = 0;   /* an error may have left the generator from the middle of a tree */
   branch_list[CJ_BREAK] = 0;
   branch_list[CJ_BREAK_SWITCH] = 0;
   branch_list[CJ_CONTINUE] = 0;
